@@ -184,7 +184,8 @@ class Prop:
     props_file = 'Props/C04.v'
     required_theorems = ['frames_within_limit', 'decode_encode_routes', 'split_preserves_multiset', 'reach_frames_all_families',
                          'unreach_frames_all_families', 'open_roundtrip', 'frame_lengths_consistent', 'eor_frame',
-                         'peer_codec_agrees', 'as4_path_roundtrip', 'unreach_never_refused', 'reach_never_refused', 'decode_encode_routes_labeled']
+                         'peer_codec_agrees', 'as4_path_roundtrip', 'unreach_never_refused', 'reach_never_refused', 'decode_encode_routes_labeled',
+                         'decode_encode_routes_structured', 'split_preserves_multiset_structured']
     extra_targets = ['Model/WireEnc.vo']
     correspondence_name = 'Model/WireEnc.v encode_to vs rustybgp_packet::bgp::PeerCodec::encode_to (harness/hx-enc), debug and release'
     rule = ('case = (local capabilities, remote capabilities, message); messages: OPEN with capability lists whose encoded size runs through 255 '
